@@ -143,9 +143,69 @@ def rule_stuck_iteration(ctx):
     r.floor(1)
 
 
+def rule_continuation_count_per_line(ctx):
+    """A `//` comment continues onto the next line iff an odd number of backslashes ends the line.  The count is a per-line
+    quantity: a line that adds no character (an empty continuation line) must not inherit the previous line's count, or the
+    code line after it becomes comment text."""
+    db = ctx.db
+    r = ctx.rule("continuation-count-per-line", "in parse_comment() every path from the header of the per-line loop of the `//` branch to the "
+                 "parity test of the backslash counter passes an assignment/initialisation of the counter to a constant (the count of "
+                 "the previous line cannot reach the test)")
+    f = db.fn("parse_comment", file="src/tokenizer/tokenize.cpp")
+    r.names(f, "bs_cnt")
+    tests = []
+    for b, blk in f.blocks.items():
+        t = blk.get("term")
+        c = t.get("lc", t.get("c")) if t else None
+        if c is not None and "bs_cnt" in expr_str(f, c) and "&" in expr_str(f, c):
+            tests.append((b, c))
+    r.require(tests, "the parity test of bs_cnt was not found")
+    resets = set()
+    for n in f.all_nodes():
+        if n["k"] == "decl" and any(v["n"] == "bs_cnt" and v.get("init") is not None and (f.nodes.get(v["init"]) or {}).get("k") == "int" for v in n.get("vars", ())):
+            resets.add(n["i"])
+        if n["k"] == "asg" and n.get("op") == "=" and expr_str(f, n["a"][0]) == "bs_cnt" and (f.nodes.get(n["a"][1]) or {}).get("k") == "int":
+            resets.add(n["i"])
+    for b, c in tests:
+        r.seen()
+        loops = [(h, body) for h, body, backs in f.loops() if b in body]
+        r.require(loops, "the parity test is not inside a loop")
+        h, body = max(loops, key=lambda x: len(x[1]))      # the per-line loop (outermost)
+        # a path header -> test, inside the loop body, that meets no constant (re)initialisation
+        from collections import deque
+        seen = set()
+        dq = deque([h])
+        leak = False
+        while dq and not leak:
+            x = dq.popleft()
+            if x in seen:
+                continue
+            seen.add(x)
+            hit = False
+            for n in f.blocks[x]["n"]:
+                if n["i"] in resets:
+                    hit = True
+                    break
+                if n["i"] == c:
+                    leak = True
+                    break
+            if hit or leak:
+                continue
+            if x == b:
+                leak = True
+                continue
+            for s2 in f.succ[x]:
+                if s2 >= 0 and s2 in body and s2 != h:
+                    dq.append(s2)
+        r.check(not leak, "parse_comment/bs_cnt-reset-per-line", db.loc(f, f.blocks[b]["term"]["l"]),
+                "the parity test of bs_cnt can be reached from the start of a line's iteration without a reset of the counter: an empty "
+                "continuation line inherits the odd count of the line before and the following code line is swallowed by the comment")
+    r.floor(1)
+
+
 def rule_newline_crossing(ctx):
     from .common_effects import newline_crossing_rule
     newline_crossing_rule(ctx)
 
 
-RULES = [rule_literal_flag_agreement, rule_comment_dispatch, rule_effects, rule_raw_write, rule_newline_crossing, rule_stuck_iteration]
+RULES = [rule_literal_flag_agreement, rule_comment_dispatch, rule_effects, rule_raw_write, rule_newline_crossing, rule_stuck_iteration, rule_continuation_count_per_line]
